@@ -183,10 +183,10 @@ type Step struct {
 // Outcome of a parse.
 type Outcome struct {
 	Accept   bool
-	Diverged bool // step limit reached (possible with resolved conflicts and epsilon loops)
+	Diverged bool   // step limit reached (possible with resolved conflicts and epsilon loops)
 	Broken   string // table inconsistency met while interpreting (stack underflow, bad index)
-	ErrTok   int  // index of the lookahead token at the error (len(toks) = eoi)
-	Consumed int  // tokens shifted (eoi not counted)
+	ErrTok   int    // index of the lookahead token at the error (len(toks) = eoi)
+	Consumed int    // tokens shifted (eoi not counted)
 	Steps    []Step
 }
 
